@@ -271,6 +271,11 @@ class Ctx:
                 "what": "proof obligation / correspondence no longer checks: " + ", ".join(o["name"] for o in failed[:8]),
                 "replay": {"failed_obligations": failed[:40]},
                 "key": None, "found_input": False})
+        dump = os.environ.get("VERIF_DUMP_VIOLATIONS")
+        if dump:
+            # development aid: every violation of this run with its key (never read back by a check)
+            with open(dump, "w") as f:
+                json.dump([{"what": v["what"], "key": v["key"]} for v in self.violations], f, indent=1)
         for h in self.known_hits:
             print("KNOWN-FINDING: property=%s %s" % (self.prop, h["what"]))
         # merge violations into at most a handful of replay files
